@@ -81,7 +81,8 @@ def build_plain(plan):
     if c != "raw":
         pe = plan["pe"]
         img, m = builder.build_pe(arch=pe["arch"], e_lfanew=pe["e_lfanew"], compile_stamp=pe["compile"],
-                                  export_stamp=pe["export"], data=payload, text_size=pe["text"], filler_seed=pe["seed"])
+                                  export_stamp=pe["export"], data=payload, text_size=pe["text"], filler_seed=pe["seed"],
+                                  num_rva=pe.get("nrva", 16))
         pre = builder.prng_bytes(pe["seed"] + 3, pe["prepend"]).replace(b"MZ", b"mz")
         plain = pre + img + unhx(pe.get("append", ""))
         for k, v in m.items():
